@@ -997,15 +997,17 @@ def camp_c12(rnd, tier):
             b.ith(q, "into_iter", "n" * (n + 4), keep=1)
             b.ith(q, "iter", "".join(rnd.choice("njklh") for _ in range(n // 2 + 4)))
             b.ith(q, "into_iter", "".join(rnd.choice("njkh") for _ in range(n // 2 + 4)), keep=1)
-            # the reported remaining length before, at and after exhaustion
-            b.ith(q, "iter", "h" + "n" * (n + 1) + "hnnh")
-            b.ith(q, "into_iter", "h" + "n" * (n + 1) + "hnnh", keep=1)
+            # the reported remaining length before, at and after exhaustion (long vectors are run
+            # down four at a time)
+            drain = "n" * (n + 1) if n <= 200 else "k" * (n // 4 + 2)
+            b.ith(q, "iter", "h" + drain + "hnnh")
+            b.ith(q, "into_iter", "h" + drain + "hnnh", keep=1)
         for o in (bv, bvm, da):
             b.ith(o, "iter", "".join(rnd.choice("njklh") for _ in range(n // 2 + 4)))
-            b.ith(o, "iter", "h" + "n" * (n + 1) + "hnnh")
+            b.ith(o, "iter", "h" + drain + "hnnh")
             b.ith(o, "ones", "".join(rnd.choice("njkh") for _ in range(n // 3 + 4)))
             b.ith(o, "zeros", "".join(rnd.choice("njkh") for _ in range(n // 3 + 4)))
-            b.ith(o, "ones", "h" + "n" * (n + 1) + "hnh")
+            b.ith(o, "ones", "h" + drain + "hnh")
         b.ith(bv, "into_iter", "".join(rnd.choice("njkl") for _ in range(n // 2 + 4)), keep=1)
     return b
 
